@@ -16,7 +16,7 @@ RULE = ("cases = (input bytes, depth limit) from skeleton x exhaustive small-alp
 ASSUMPTIONS = ["CPython 3.12, regex and pefile wheels are trusted", "inputs capped at 16 KiB (thorough: one 64 KiB-1 MiB class)",
                "non-termination is operationalised as 3x the per-case CPU budget"]
 EXPECTED_WALL = {"quick": 60, "thorough": 600}
-REQUIRED = {"evaluations": 1000, "views_run": 1000, "gen:skel": 100, "gen:cmd": 50, "gen:pe": 5, "gen:xorbytes": 5, "gen:repeatunit": 1000}
+REQUIRED = {"evaluations": 1000, "views_run": 1000, "gen:skel": 100, "gen:cmd": 6, "gen:pe": 5, "gen:xorbytes": 5, "gen:repeatunit": 1000}
 
 
 def plan(tier, seed):
